@@ -49,6 +49,10 @@ pub struct Trigger {
     pub scenario: Scenario,
     /// use `tokio::task::spawn_local` instead of `tokio::spawn`
     pub local: bool,
+    /// the handler that fires the trigger also requests the shutdown of its module: what it made runnable is still
+    /// polled within this event (only generated for a module's single trigger whose work completes in the instant)
+    #[serde(default)]
+    pub then_shutdown: bool,
 }
 
 #[derive(Debug, Clone, Serialize, Deserialize, PartialEq)]
@@ -369,7 +373,11 @@ impl Module for Stormy {
 
     fn handle_message(&mut self, msg: Message) {
         if msg.header().kind == TRIG {
-            self.fire(msg.header().id as usize);
+            let ti = msg.header().id as usize;
+            self.fire(ti);
+            if self.triggers[ti].then_shutdown {
+                current().shutdown();
+            }
         }
     }
 }
@@ -507,7 +515,7 @@ pub fn gen_trigger(rng: &mut Rng, time_ns: u64, local: bool, big: bool) -> Trigg
     };
     // waiters must have been polled once before notify_waiters can reach them
     let time_ns = if matches!(scenario, Scenario::Notify { .. } | Scenario::Captured { .. }) && time_ns == 0 { SEC } else { time_ns };
-    let mut t = Trigger { time_ns, scenario, local };
+    let mut t = Trigger { time_ns, scenario, local, then_shutdown: false };
     if local && !big && t.polls() > 55 {
         t.scenario = Scenario::Notify { n: 40 };
     }
@@ -523,6 +531,21 @@ pub fn gen_case(rng: &mut Rng, known_shape: bool) -> Case {
         let at = rng.below(3) * SEC;
         let t = gen_trigger(rng, at, true, true);
         return Case { modules: vec![vec![t]] };
+    }
+    if rng.chance(1, 6) {
+        // one module with a single trigger whose handler also shuts the module down
+        let at = (1 + rng.below(3)) * SEC;
+        let local = rng.chance(1, 4);
+        let mut t = gen_trigger(rng, at, local, false);
+        let completes_in_instant = match &t.scenario {
+            Scenario::Burst { sleep_ns, .. } => *sleep_ns == 0,
+            Scenario::Captured { .. } => false,
+            _ => true,
+        };
+        if completes_in_instant && t.time_ns > 0 {
+            t.then_shutdown = true;
+            return Case { modules: vec![vec![t]] };
+        }
     }
     let modules = 1 + rng.usize_below(3);
     Case {
@@ -579,6 +602,9 @@ pub fn cmd(args: &Args) -> Report {
             rep.count(key, 1);
             if t.local {
                 rep.count("scenarios_with_spawn_local", 1);
+            }
+            if t.then_shutdown {
+                rep.count("scenarios_whose_handler_also_requests_shutdown", 1);
             }
             if t.polls() > 61 {
                 rep.count("instants_needing_more_than_61_polls", 1);
